@@ -114,7 +114,9 @@ package cluster
 //@   safety -panic -overflow
 //@   requires ls != nil && unheld(sm.shardLock) && unheld(ls.mu)
 //@   ensures unheld(sm.shardLock) && unheld(ls.mu)
+//@   ensures forallv(k string, old(contains(sm.shardStore, k)) && old(sm.shardStore[k]) != ls ==> contains(sm.shardStore, k) && sm.shardStore[k] == old(sm.shardStore[k]))
 //@   loop 1 invariant unheld(sm.shardLock) && unheld(ls.mu)
+//@   loop 1 invariant forallv(k string, old(contains(sm.shardStore, k)) && old(sm.shardStore[k]) != ls ==> contains(sm.shardStore, k) && sm.shardStore[k] == old(sm.shardStore[k]))
 
 //@ func (*ShardManager).DoWithShard
 //@   property C12
@@ -254,3 +256,22 @@ package cluster
 //@   before distributePoints requires sumPC(shards, len(shards)) + int64(len(points)) <= col.UserPlan.MaxCollectionPointCount
 //@   ensures callres(GetShardsInfo, 1, 1) != nil ==> result1 != nil && ncalls(distributePoints) == 0
 //@   loop 1 invariant rangeindex >= -1 && rangeindex < len(shards) && totalPoints == sumPC(shards, rangeindex+1)
+
+// ---- multi-shard search merge (property C17): the per-shard answers of a collection with more
+// than one shard are always put in one global order - by hybrid score, or by the requested sort
+// keys - before the limit cut, however few points came back; the answer never exceeds the limit.
+// the per-shard goroutine of SearchPoints: of the variables it captures it assigns only the
+// result list and the first error (assumed; its body - the RPC - is not under contract)
+//@ func (*ClusterNode).SearchPoints$1
+//@   trusted
+//@   modifies results, searchErr
+//@ func (*ClusterNode).SearchPoints
+//@   property C17
+//@   floats order
+//@   safety -overflow -makelen -panic
+//@   requires sr.Limit >= 0
+//@   ensures result1 == nil ==> len(result0) <= old(sr.Limit)
+//@   ensures result1 == nil && len(col.ShardIds) > 1 && len(sr.Sort) == 0 ==> ncalls(SortFunc) == 1 && ncalls(SortSearchResults) == 0
+//@   ensures result1 == nil && len(col.ShardIds) > 1 && len(sr.Sort) != 0 ==> ncalls(SortSearchResults) == 1 && ncalls(SortFunc) == 0 && callarg(SortSearchResults, 1, 1) == sr.Sort
+//@   ensures result1 == nil && len(col.ShardIds) <= 1 ==> ncalls(SortFunc) == 0 && ncalls(SortSearchResults) == 0
+//@   loop 1 invariant rangeindex >= -1
